@@ -16,6 +16,8 @@ TStep ==
   /\ l <= Len(Traces[tid].steps)
   /\ LET e == Traces[tid].steps[l] IN
        /\ \/ e.cmd = "start" /\ Start(e.arg.kind = "bg")
+          \/ e.cmd = "startreal" /\ StartPipeline(e.arg.kind)
+          \/ e.cmd = "startfaulty" /\ StartFaulty
           \/ e.cmd = "exit" /\ ProcExit(e.arg.n)
           \/ e.cmd = "stop" /\ ProcStop(e.arg.n)
           \/ e.cmd = "jobs" /\ JobsCmd(e.thr)
@@ -25,7 +27,7 @@ TStep ==
        /\ tab' = e.obs.tab /\ tasks' = e.obs.tasks
        /\ res'.failed = e.obs.failed
        /\ (e.cmd = "jobs" => SameSet(res'.out, e.obs.out))
-       /\ (e.cmd \in {"fg", "bg", "start"} => res'.sel = e.obs.sel)
+       /\ (e.cmd \in {"fg", "bg", "start", "startreal", "startfaulty"} => res'.sel = e.obs.sel)
        /\ used' = IF res'.dev = "" THEN used ELSE used \cup {res'.dev}
   /\ l' = l + 1 /\ tid' = tid
 
